@@ -1225,6 +1225,10 @@ class Evaluator:
             return Builtin(n.id)
         if self.spec_mode and n.id in self.ex.contract.lets:
             return self.ex.spec(self.st, self.ex.contract.lets[n.id], extra_env=self.extra, old=self.old)
+        if not self.spec_mode:
+            r = self.ex._module_level(n.id)
+            if r is not NotImplemented:
+                return r
         raise Outside(f"unbound name {n.id} (line {getattr(n, 'lineno', '?')})")
 
     def e_Tuple(self, n):
@@ -2227,6 +2231,55 @@ def Executor_is_property(self, name):
     return False
 
 
+def Executor_module_level(self, name):
+    """a name the function does not bind: a module-level constant of simple form (number, string, tuple of those) of the function's own
+    module, or a module-level helper FUNCTION of it, which is then run in place when called if it is straight-line (see
+    _exec_straightline). Keeps proofs across "extract a constant / a small module-level helper" refactorings."""
+    from pyvc import extract as _extract
+    mod = getattr(self.fx, "mod", None)
+    if not mod:
+        return NotImplemented
+    try:
+        consts = _extract.module_constants(mod)
+    except Exception:
+        consts = {}
+    if name in consts and isinstance(consts[name], (int, float, str, bytes)) and not isinstance(consts[name], bool):
+        v = consts[name]
+        return _frac(v) if isinstance(v, float) else v
+    try:
+        tree = _extract.module_ast(mod)[1]
+    except Exception:
+        return NotImplemented
+    for f in tree.body:
+        if isinstance(f, ast.FunctionDef) and f.name == name:
+            if f.args.vararg or f.args.kwarg or f.args.kwonlyargs or f.decorator_list:
+                return NotImplemented
+            if not all(isinstance(d_, ast.Constant) for d_ in f.args.defaults):
+                return NotImplemented      # a default is evaluated when the function is DEFINED; only literals mean the same at call time
+            params = [a.arg for a in f.args.args]
+            defaults = f.args.defaults
+
+            def call(ev2, args, kwargs, node2, f=f, params=params, defaults=defaults):
+                if len(args) > len(params) or any(k not in params for k in kwargs):
+                    raise Outside(f"call form of module-level helper {f.name}")
+                env = dict(zip(params, args))
+                for k_, v_ in kwargs.items():
+                    if k_ in env:
+                        raise Outside(f"call form of module-level helper {f.name}")
+                    env[k_] = v_
+                nd = len(defaults)
+                for i, p_ in enumerate(params):
+                    if p_ not in env:
+                        j = i - (len(params) - nd)
+                        if j < 0:
+                            raise Outside(f"call form of module-level helper {f.name}")
+                        env[p_] = Evaluator(self, ev2.st).eval(defaults[j])
+                return self._exec_straightline(f, ev2.st, env)
+            return PyCallable(call)
+    return NotImplemented
+
+
+Executor._module_level = Executor_module_level
 Executor._is_property = Executor_is_property
 Executor._exec_straightline = Executor_exec_straightline
 Executor._inline_helper = Executor_inline_helper
